@@ -4,18 +4,26 @@ the markdown table for DESIGN.md 7.1.  Input: /tmp/wt/res{A,B,C}.json written by
 import glob, json, os, shutil
 
 res = {}
-for f in sorted(glob.glob("/tmp/wt/res*.json")):
+for f in sorted(glob.glob("/tmp/wt/res*.json")) + sorted(glob.glob("/tmp/wt2/res*.json")):
     res.update(json.load(open(f)))
-first = json.load(open("/verif/seeded/first_round.json")) if os.path.exists("/verif/seeded/first_round.json") else {}
+first = {}
+for f in ("/verif/seeded/first_round.json", "/verif/seeded/second_round_first_outcome.json"):
+    if os.path.exists(f):
+        first.update(json.load(open(f)))
+tests = json.load(open("/tmp/wt/seedtests.json"))
+rejected = []
 rows = []
 for name in sorted(res):
     r = res[name]
     pid = name.split("_")[0]
-    sd = f"/tmp/wt/{pid}/_seed/{name}"
-    ok = r.get("demo_clean") == 0 and r.get("demo_patched") not in (0, None) and "129 passed" in r.get("tests", "")
+    sd = f"/tmp/wt/{pid}/_seed/{name}" if os.path.isdir(f"/tmp/wt/{pid}/_seed/{name}") else f"/tmp/wt2/{pid}/_seed/{name}"
+    tr = tests.get(name, {})
+    ok = tr.get("demo_clean") == 0 and tr.get("demo_patched") not in (0, None) and tr.get("tests", "").startswith("3 failed, 129 passed") and not tr.get("extra_failures")
     if not ok:
-        print("NOT CONFIRMED:", name, r)
+        rejected.append((name, tr.get("tests"), tr.get("extra_failures")))
         continue
+    r["tests"] = tr["tests"] + " (suite run with PYTHONPATH=<scratch worktree>/src)"
+    r["demo_clean"], r["demo_patched"] = tr["demo_clean"], tr["demo_patched"]
     dst = f"/verif/seeded/{name}"
     os.makedirs(dst, exist_ok=True)
     for fn in ("patch.diff", "demo.py", "notes.txt"):
@@ -27,7 +35,7 @@ for name in sorted(res):
         "seed": name,
         "breaks_property": pid,
         "needs_to_manifest": notes,
-        "confirmed_by": {"command": "bin/seedeval.py (scratch worktree /tmp/wt/%s): demo.py on the clean tree, git apply patch.diff, full pytest suite, demo.py again" % pid,
+        "confirmed_by": {"command": "bin/seedtests.py + bin/seedeval.py in scratch worktrees outside /repo and /verif: demo.py on the clean tree, git apply patch.diff, full pytest suite against the worktree's own sources (PYTHONPATH=<worktree>/src), demo.py again; then ./check <ID> with JASM_REPO=<worktree>",
                          "demo_exit_clean": r["demo_clean"], "demo_exit_patched": r["demo_patched"], "test_suite_with_patch": r["tests"]},
         "checks_run_quick_tier": {k: {"exit": v["exit"], "violation_keys": v["keys"]} for k, v in r["checks"].items()},
         "detected_by": sorted(caught),
@@ -40,3 +48,9 @@ print("| seed | change (first line of the agent's note) | caught by (quick tier;
 print("|---|---|---|---|")
 for row in rows:
     print("| " + " | ".join(str(x).replace("|", "\\|") for x in row) + " |")
+
+print()
+print("rejected (the change breaks the repository's own tests when the suite really imports the changed sources):")
+for r in rejected:
+    print("  ", r)
+json.dump({"rejected": rejected}, open("/verif/seeded/rejected.json", "w"), indent=1)
